@@ -7,6 +7,7 @@ import (
 
 	lz4 "github.com/pierrec/lz4/v4"
 
+	"verifharness/gen"
 	"verifharness/inst"
 	"verifharness/ref"
 	"verifharness/stat"
@@ -53,6 +54,9 @@ func FuzzC03(f *testing.F) {
 			return
 		}
 		c := decCase{Src: src, DstLen: int(dstLen), Spare: []int{0, 1, 16, 64}[flags&3], Fill: int(flags>>2) & 3, Place: []string{"end", "start"}[(flags>>4)&1], Origin: "fuzz"}
+		if dstLen == 0 && flags&0x20 != 0 {
+			c.Place = "nil"
+		}
 		if dictSel > 0 {
 			n := dictLens[int(dictSel)%len(dictLens)]
 			c.Dict = make([]byte, n)
@@ -142,3 +146,44 @@ func FuzzC07(f *testing.F) {
 func init() { register("C05", "C05/raw", runC05Raw) }
 
 var _ = lz4.Fast
+
+// FuzzC10 takes the fuzz bytes as the source of a block compression (compressor, HC depth and destination length from
+// the other arguments) and applies the C01 (round trip), C10 (strict validity) and C11 (destination contract) oracles.
+func FuzzC10(f *testing.F) {
+	for _, s := range [][]byte{nil, []byte("a"), []byte("abcabcabcabcabcabcabcabcabc"), bytes.Repeat([]byte{0}, 300), bytes.Repeat([]byte("0123456789"), 40), opData(5000, 3), opData(70000, 4)} {
+		f.Add(s, uint8(0), uint16(0xFFFF))
+		f.Add(s, uint8(2|3<<2), uint16(0xFFFF))
+		f.Add(s, uint8(3|1<<2), uint16(len(s)/2))
+	}
+	f.Fuzz(func(t *testing.T, data []byte, flags uint8, dstSel uint16) {
+		if len(data) > 256<<10 {
+			return
+		}
+		comp := []string{"fast-obj", "fast-pkg", "hc-obj", "hc-pkg"}[flags&3]
+		depth := []uint32{0, 1, 2, 4, 16, uint32(lz4.Level1), uint32(lz4.Level5), 65536}[(flags>>2)&7]
+		if len(data) > 4096 && depth != 1 {
+			depth = 4
+		}
+		d := gen.Data{Segs: []gen.Seg{{K: "raw", N: len(data), Raw: data}}}
+		bound := lz4.CompressBlockBound(len(data))
+		dstLen := bound
+		if dstSel != 0xFFFF {
+			dstLen = int(dstSel) % (bound + 3)
+		}
+		cc := compCase{Data: d, Comp: comp, Depth: depth, DstLen: dstLen, Spare: []int{0, 1, 40}[int(flags>>5)%3]}
+		if fl := safely(runC10, cc, stat.For("C10")); fl != nil {
+			judge(t, "C10", "C10/strict", cc, fl)
+		}
+		if fl := safely(runC11, cc, stat.For("C11")); fl != nil {
+			judge(t, "C11", "C11/dstcontract", cc, fl)
+		}
+		c1 := c01Case{Steps: []c01Step{{Data: d, Comp: comp, Depth: depth}}}
+		if flags&0x80 != 0 {
+			// a compressor that has seen the same bytes shifted by one before
+			c1.Steps = append([]c01Step{{Data: gen.Data{Segs: []gen.Seg{{K: "run", N: 1, P: 'x'}, {K: "raw", N: len(data), Raw: data}}}, Comp: comp, Depth: depth}}, c1.Steps...)
+		}
+		if fl := safely(runC01, c1, stat.For("C01")); fl != nil {
+			judge(t, "C01", "C01/roundtrip", c1, fl)
+		}
+	})
+}
